@@ -220,7 +220,8 @@ def cli_leg(ctx, model, langs):
     # by the workers of one run, the file cache by successive runs): the statistics of a file are a function of its
     # content and ITS OWN syntax, whatever was counted before it
     twins = {}
-    text = "# build notes\n// more notes\n-- even more\nlet x = 1;\n\n; tail\n% pct\n"
+    # a different NUMBER of lines per comment prefix, so that every syntax family gives its own statistics
+    text = "# a\n# b\n# c\n// d\n// e\n-- f\nlet x = 1;\n\n; g\n; h\n; i\n; j\n% k\n% l\n% m\n% n\n% o\n"
     for ext in ("js", "py", "rs", "lua", "sql", "rb", "c", "hs", "tex", "lisp", "erl", "sh"):
         sy = [l for l in langs if ext in l.exts]
         if sy:
